@@ -15,3 +15,9 @@ def wrap(arg):
 
 def wrap2(left, right="R"):
     return lambda x: "%s<%s>%s" % (left, x, right)
+
+
+class Upper:
+    """an object from the render context whose method is used as a filter"""
+    def up(self, s):
+        return s.upper()
